@@ -106,12 +106,15 @@ static void one_state(const struct hist *h, const struct opscope *sc, int with_o
       /* foreign ABI word: the first field of the stored topology */
       { unsigned abi = 0, bad; off_t pos = off + (off_t)((SHMEM_HEADER_SIZE + sizeof(void *) - 1) & ~(sizeof(void *) - 1)) + (off_t)offsetof(struct hwloc_topology, topology_abi);
         if (pread(fd, &abi, sizeof(abi), pos) == (ssize_t)sizeof(abi) && abi == HWLOC_TOPOLOGY_ABI) {
-          bad = abi ^ 0x10000; if (pwrite(fd, &bad, sizeof(bad), pos) != (ssize_t)sizeof(bad)) bad = 0;
+          /* every single-bit deviation of the ABI word (any other value is an incompatible ABI) */
+          for (int bit = 0; bit < 32; bit++) {
+          bad = abi ^ (1u << bit); if (pwrite(fd, &bad, sizeof(bad), pos) != (ssize_t)sizeof(bad)) bad = 0;
           hwloc_topology_t a = NULL; errno = 0; int r = -9;
           if (MC_TRY(30000)) { r = hwloc_shmem_topology_adopt(&a, fd, (hwloc_uint64_t)off, addr, len, 0); mc_try_end(); }
           MC.transitions++;
-          if (!mc_report_faults("adopt-foreign-abi")) { if (r == 0) { mc_violation("c19.adopt.abi", "%s :: a foreign ABI word is adopted", mc_case_text()); hwloc_topology_destroy(a); } else if (errno != EINVAL) mc_violation("c19.adopt.abi.errno", "%s :: errno %d", mc_case_text(), errno);
+          if (!mc_report_faults("adopt-foreign-abi")) { if (r == 0) { mc_violation("c19.adopt.abi", "%s :: ABI word %#x (this library: %#x) is adopted", mc_case_text(), bad, abi); hwloc_topology_destroy(a); } else if (errno != EINVAL) mc_violation("c19.adopt.abi.errno", "%s :: errno %d", mc_case_text(), errno);
             void *p = mmap(addr, len, PROT_NONE, MAP_PRIVATE | MAP_ANONYMOUS | MAP_FIXED_NOREPLACE, -1, 0); if (p != addr) mc_violation("c19.adopt.abi.unmap", "%s :: the failed adoption leaves the range mapped", mc_case_text()); else munmap(addr, len); }
+          }
           if (pwrite(fd, &abi, sizeof(abi), pos) != (ssize_t)sizeof(abi)) goto cleanup;
         } else mc_count("abi_word_not_located", 1); }
     }
@@ -202,7 +205,7 @@ int main(int argc, char **argv)
 {
   mc_init(argc, argv, "C19");
   PAGE = sysconf(_SC_PAGESIZE);
-  int nroots = univ_small_count(), ncfg = hist_ncfg();
+  int nroots = univ_small_count(), ncfg = hist_ncfg() + 1;   /* + the configuration with NO_DISTANCES|NO_MEMATTRS|NO_CPUKINDS */
   struct opscope sc; memset(&sc, 0, sizeof(sc)); sc.classes = OPC_ALL; sc.max_subset_bits = 2; sc.lean = 1;
   uint64_t idx = 0;
   mc_note("%d roots x %d configurations and their depth-1 states x file offsets {0,1,3} pages; guard page after the mapping", nroots, ncfg);
